@@ -3,7 +3,7 @@
 
    Models: Proto/PairModel.v (one parametric step function, k = K0 for pair0/pair.c,
    K1 raw for pair1/pair.c cooked/raw; fx = the pipe_stop repair of the send descriptor is
-   present in the source; fr = the set_send_buf_len repair (blocked senders are admitted, in
+   present in the source; fr = the set_send_buf_len repair (blocked senders are letin, in
    order, when the buffer grows; fix 7c956d7) is present -- both read from the current tree,
    Gen/Consts.v).  All theorems are for every k, fx and fr unless they say otherwise.  One step = one critical section of s->mtx,
    so a theorem over all op lists covers all interleavings of entry points and callbacks.
@@ -45,7 +45,7 @@ Print Assumptions pair_one_peer.
    C1..C4 together are the conservation law: every message accepted from the application is
    (as a sequence, in acceptance order) handed to the transport, still buffered, or an
    explicit buffer-shrink / socket-close loss; every message handed to the transport is in
-   flight, taken by it, or freed because that transport send failed; every admitted message
+   flight, taken by it, or freed because that transport send failed; every letin message
    from the peer is delivered, still buffered / parked, or an explicit loss (shrink, close,
    the message parked in a connection that goes down); and every Free is one of: a message
    the hop rules reject, one of those explicit losses, the message of a failed transport send. *)
@@ -84,7 +84,7 @@ Print Assumptions pair_wr_ready_invariant.
    accepted from the application, and EQUAL to it when no buffer shrink / socket close
    dropped anything (tr_wloss = those drops, and the multiset difference is exactly them);
    likewise what was delivered followed by what is still held is an in-order sub-sequence of
-   what the peer's admitted messages, equal when nothing was explicitly dropped (tr_rloss =
+   what the peer's letin messages, equal when nothing was explicitly dropped (tr_rloss =
    receive-buffer shrink, socket close, the message parked in a connection that went down).
    Each message at most once: the equalities / multiset equations leave no room for a copy. *)
 Theorem pair_fifo_lossless_while_up : forall k fx fr ops s, PInv s -> ops_ok k fx fr s ops ->
@@ -206,7 +206,7 @@ Print Assumptions pair_poll_w_mirror_refuted.
 (* a wire message b0 b1 b2 b3 ++ rest from the peer, v its first big-endian word (no
    restriction on the bytes): v > 0xff => freed, the sender disconnected, state unchanged,
    hence never delivered; 0xff >= v > ttl => freed, receive re-armed, state unchanged,
-   connection kept; otherwise admitted with header = the hop count (which for byte values
+   connection kept; otherwise letin with header = the hop count (which for byte values
    is the four bytes received) and the body trimmed -- pair_conservation_step /
    pair_fifo_lossless_while_up then deliver exactly that message in order; fewer than four
    bytes => disconnect; on the way out pipe_send adds one to the header word (mod 2^32;
@@ -417,7 +417,7 @@ Definition c08_demo : list pop :=
    PPipeStart 5%N PROTO_PAIR1;                               (* 7 goes out with hop 1, 8 moves into the buffer *)
    PPipeStart 6%N PROTO_PAIR1;                               (* refused: busy *)
    PSendDone 5%N 0%N;                                        (* 8 goes out *)
-   PRecvDone 5%N 0%N (mkPmsg [] [0; 0; 0; 3; 9]%N);          (* hop 3 = ttl: admitted, parked (no receive buffer) *)
+   PRecvDone 5%N 0%N (mkPmsg [] [0; 0; 0; 3; 9]%N);          (* hop 3 = ttl: letin, parked (no receive buffer) *)
    PRecv None 3%N true;                                      (* delivered with header 00000003 *)
    PRecvDone 5%N 0%N (mkPmsg [] [0; 0; 0; 4; 10]%N);         (* hop 4 > ttl: dropped, connection kept *)
    PSetOpt None (OSendBuf 4)].
